@@ -92,7 +92,7 @@ def abs_value(v, memo=None, depth=0):
         return ["obj", me, tname(t), ["rng", abs_value(st, memo, depth + 1)]]
     if isinstance(v, np.random.Generator):
         ss = getattr(v.bit_generator, "seed_seq", None)
-        ss_state = abs_value(ss.state, memo, depth + 1) if ss is not None and hasattr(ss, "state") else None
+        ss_state = abs_value(ss.state, memo, depth + 1) if GENERATOR_SEED_SEQ and ss is not None and hasattr(ss, "state") else None
         return ["obj", me, tname(t), ["rng", type(v.bit_generator).__name__, abs_value(v.bit_generator.state, memo, depth + 1), ss_state]]
     if t is bytearray:
         return ["obj", me, "builtins.bytearray", bytes(v).hex()]
@@ -141,6 +141,11 @@ def abs_obj_state(v, memo, depth):
         except Exception:
             return None
     return abs_value(st, memo, depth + 1)
+
+
+# The protocol-0/1 RandomGeneratorNode layouts never stored the seed sequence: comparisons of values that went
+# through those layouts (C08 old-layout correspondence) switch this off for BOTH sides.
+GENERATOR_SEED_SEQ = True
 
 
 def fingerprint(v):
